@@ -783,7 +783,9 @@ pub fn run(property: &'static str, tier: Tier) -> Vec<Part> {
         parts.push(part);
         if property == "C01" {
             let group: Vec<u8> = (0..plan.cfg.n as u8).collect();
-            let cl = closure(&plan.cfg, &plan.bounds, &ex.configs, &group, wall(Instant::now(), plan.secs));
+            // (thorough: the closure gets half of the plan's budget, which keeps the whole check under ~2 h)
+            let closure_secs = if tier == Tier::Thorough { (plan.secs / 2).max(30) } else { plan.secs };
+            let cl = closure(&plan.cfg, &plan.bounds, &ex.configs, &group, wall(Instant::now(), closure_secs));
             let mut cpart = cl.part;
             add_found(&mut cpart, &plan.cfg, &plan.bounds, cl.found);
             parts.push(cpart);
